@@ -45,7 +45,7 @@ PROPS = {
                 bounds=["honest trees of 1..3 (quick) / 1..6 (thorough) leaves, every leaf position, unpaired nodes promoted", "all amounts < 2^128, opaque address/denom strings", "decomposed through the predicate 'claimable' (positive amount that fits 64 bits, non-empty sender): L2 records only claimable withdrawals/refunds; L1 accepts only refundable deposits; L1 finalizes every claimable withdrawal of an honest, final output with a funded escrow"],
                 outside=["trees above the bound", "the off-chain executor that builds the tree", "wide unsigned comparisons are an uninterpreted total order (consistency of the order is what the code relies on)"],
                 assumptions=COMMON_ASSUME + ["sha3 uninterpreted"]),
-    "C05": dict(runs=[oph("^Harness_C05_|^Harness_C11_ProposeStep|^Harness_C03_FinalizeStep")],
+    "C05": dict(runs=[oph("^Harness_C05_|^Harness_C11_ProposeStep|^Harness_C11_DeleteStep|^Harness_C03_FinalizeStep")],
                 bounds=["every int64 duration, every block/proposal time in the protobuf Timestamp range", "frame harnesses: iterated stores 1 entry quick / 2 thorough"], outside=["times outside years 1..9999"], assumptions=COMMON_ASSUME + ["block time is non-decreasing"]),
     "C11": dict(runs=[oph("^Harness_C11_")],
                 bounds=["closed-world OutputProposals store: at most 2 (quick) / 3 (thorough) outputs in the pre-state, over all bridges", "delete loop unwinding 8"],
